@@ -13,7 +13,8 @@ git -C $SC merge --abort >/dev/null 2>&1; git -C $SC reset -q --hard main; git -
 (cd $SC && ./setup.sh >/dev/null 2>&1)
 git -C /repo worktree add -q $WT HEAD || exit 2
 BASE=/tmp/baseline_failset_$(git -C /repo rev-parse --short HEAD).txt
-if [ ! -f $BASE ]; then (cd $WT && PYTHONPATH=$WT/src $PY $SUITE 2>&1 | grep -E "^(FAILED|ERROR)" | sed 's/ - .*//' | sort > $BASE); fi
+# one writer at a time (several slots may start together); write to a temporary name and rename
+( flock 9; if [ ! -s $BASE ]; then (cd $WT && PYTHONPATH=$WT/src $PY $SUITE 2>&1 | grep -E "^(FAILED|ERROR)" | sed 's/ - .*//' | sort > $BASE.tmp.$$) && mv $BASE.tmp.$$ $BASE; fi ) 9>/tmp/baseline_failset.lock
 DEMO0=$(cd $WT && PYTHONPATH=$WT/src timeout 600 $PY $SRC/demo.py >/tmp/vs_demo0_$NAME.txt 2>&1; echo $?)
 if ! git -C $WT apply $SRC/patch.diff; then echo "PATCH DOES NOT APPLY"; git -C /repo worktree remove --force $WT; exit 2; fi
 (cd $WT && PYTHONPATH=$WT/src $PY $SUITE 2>&1 | grep -E "^(FAILED|ERROR)" | sed 's/ - .*//' | sort > /tmp/vs_fail_$NAME.txt)
